@@ -453,7 +453,7 @@ fn histories(len: usize, devs: usize, kinds: &[Kind]) -> Vec<Vec<Ev>> {
 }
 
 pub fn run(ctx: &Ctx) -> i32 {
-    std::panic::set_hook(Box::new(|_| {}));
+    crate::common::report::quiet_panics();
     pipeline::install();
     if let Err(e) = pipeline::wire_self_test() {
         machinery_failure(&e);
